@@ -35,7 +35,7 @@ MAX_MODES = ["bw", "br", "rb", "br2", "rb2", "br3", "rb3", "s10", "s11"]
 
 PATTERNS = [
     "random", "constant", "ramp", "nibble_checker", "pair_checker", "byte_checker",
-    "single_odd", "rows_repeat", "runs", "low_values", "all_ff", "all_00",
+    "single_odd", "rows_repeat", "runs", "low_values", "all_ff", "all_00", "blank_top", "blank_bottom",
 ]
 
 
@@ -91,6 +91,20 @@ def gen_body(pattern, n, row_bytes, rng, special=None):
             ln = rng.choice([1, 1, 2, 3, 5, 17, 127, 128, 129, 254, 255, 256, 300, row_bytes, row_bytes + 1, 700])
             out += bytearray([rng.choice(vals)]) * ln
         return out[:n]
+    if pattern.startswith(("blank_top", "blank_bottom")):
+        # a band of 1..16 all-zero rows at the top (or bottom) of an otherwise random picture: margins, letterboxing
+        # ("blank_top_8" fixes the height of the band)
+        tail_ = pattern.rsplit("_", 1)[-1]
+        k = int(tail_) if tail_.isdigit() else rng.choice([1, 2, 7, 8, 8, 9, 16])
+        pattern = "blank_top" if pattern.startswith("blank_top") else "blank_bottom"
+        rows_ = max(1, n // max(1, row_bytes))
+        k = min(k, max(0, rows_ - 1))
+        body = bytearray(rng.getrandbits(8) | 1 for _ in range(n))
+        if pattern == "blank_top":
+            body[: k * row_bytes] = bytes(k * row_bytes)
+        else:
+            body[n - k * row_bytes :] = bytes(k * row_bytes)
+        return body
     if pattern == "low_values":
         return bytearray(rng.randrange(4) * 17 for _ in range(n))
     raise ValueError(pattern)
